@@ -36,6 +36,10 @@ pub struct Scenario {
     pub content_faults: Vec<(String, String)>,
     /// free-form description of the swarm configuration that produced it
     pub note: String,
+    /// C18: severities already seen for diagnostic kinds in *other* runs of the batch (filled in by
+    /// the driver when two runs disagree, so that the conflict replays from one file)
+    #[serde(default, skip_serializing_if = "BTreeMap::is_empty")]
+    pub expected_levels: BTreeMap<String, String>,
 }
 
 #[derive(Clone, Debug, Serialize, Deserialize)]
@@ -59,6 +63,9 @@ pub struct Stats {
     pub worlds: BTreeSet<u64>,
     pub signatures: BTreeSet<u64>,
     pub samples: Vec<serde_json::Value>,
+    /// first run index at which a counter key of the form `level:<kind>=<level>` was seen
+    #[serde(default)]
+    pub first_seen: BTreeMap<String, u64>,
 }
 
 impl Stats {
@@ -75,6 +82,10 @@ impl Stats {
         self.nontrivial_worlds.extend(o.nontrivial_worlds);
         self.worlds.extend(o.worlds);
         self.signatures.extend(o.signatures);
+        for (k, v) in o.first_seen {
+            let e = self.first_seen.entry(k).or_insert(v);
+            *e = (*e).min(v);
+        }
         for s in o.samples {
             if self.samples.len() < 6 {
                 self.samples.push(s);
